@@ -95,6 +95,11 @@ func RunOne(t *testing.T, tape *Tape, seed int64, opts RunOpts) *RunResult {
 func runInBubble(tape *Tape, seed int64, opts RunOpts) *RunResult {
 	// client-go's retry/backoff jitter draws from the global math/rand source: pin it per run
 	mrand.Seed(1)
+	// Simulated time is discrete: without this offset reconciles often run at an instant that is exactly a whole second,
+	// i.e. exactly equal to a timestamp the API server truncated to seconds - something a real clock practically never
+	// does - and "deadline.Before(now)" tests on such timestamps then fail with a zero requeue (a lost wake-up that no
+	// real deployment can see).  137us keeps every later instant off the second boundaries.
+	time.Sleep(137 * time.Microsecond)
 	s := &Sim{T: tape, Stats: map[string]int{}, Probes: map[string]int{}}
 	s.start = time.Now()
 	sc, cfg := DrawScenario(tape, opts.Property)
